@@ -7,11 +7,16 @@ IND = {"a": "x", "b": "y", "c": "z", "d": "q", "e": "w", "f": "v"}        # indi
 CHO = ["1", "2", "3", "4"]                                       # chord outputs
 
 
-def make_v1(T, singles, chords, plain=(), red=1):
-    """singles: chord keys with a single-key chord; chords: list of key-name tuples (>= 2 keys); plain: non-chord keys."""
+def make_v1(T, singles, chords, plain=(), red=1, twin=None):
+    """singles: chord keys with a single-key chord; chords: list of key-name tuples (>= 2 keys); plain: non-chord keys;
+    twin: {physical key: chord key} - further physical keys that carry the chord key of another key (lsft and rsft both
+    `(chord g s)`): P_C09 is told from the configuration text that either physical key stands for the chord key."""
+    twin = twin or {}
     ckeys = sorted(set(k for ch in chords for k in ch) | set(singles))
-    keys = ckeys + list(plain)
+    keys = ckeys + sorted(twin) + list(plain)
     layer = {k: {"t": "chordv1", "group": "g", "key": k} for k in ckeys}
+    for k, ck in twin.items():
+        layer[k] = {"t": "chordv1", "group": "g", "key": ck}
     for k in plain:
         layer[k] = K(IND[k])
     entries = ["(%s) %s" % (k, IND[k]) for k in singles] + \
@@ -19,10 +24,12 @@ def make_v1(T, singles, chords, plain=(), red=1):
     desc = {"keys": keys, "layers": [layer], "defcfg": {"rapid-event-delay": red},
             "extra": ["(defchords g %d %s)" % (T, " ".join(entries))]}
     params = {"ver": 1, "T": T,
-              "keys": [{"c": cfgdesc.code(k), "o": cfgdesc.code(IND[k]) if (k in singles or k in plain) else 0} for k in keys],
+              "keys": [{"c": cfgdesc.code(k), "o": cfgdesc.code(IND[k]) if (k in singles or k in plain) else 0} for k in keys
+                       if k not in twin],
               "part": [cfgdesc.code(k) for k in ckeys],
               "chords": [{"ks": sorted(cfgdesc.code(k) for k in ch), "o": cfgdesc.code(CHO[i]), "u": "", "T": T,
                           "first": False, "dis": []} for i, ch in enumerate(chords)],
+              "same": [{"c": cfgdesc.code(k), "k": cfgdesc.code(ck)} for k, ck in sorted(twin.items())],
               "red": red, "minidle": 0, "lkey": 0, "slack": 2 * red + 10}
     return desc, params
 
@@ -54,17 +61,36 @@ def make_v2(chords, keys, red=1, minidle=5, lkey=None):
                           "o": 0 if (uni and uni[0] != "+") else cfgdesc.code(CHO[i]),
                           "u": (uni or "").lstrip("+"), "T": T, "first": rel == "first", "dis": list(dis)}
                          for i, (ks, T, rel, dis, uni) in enumerate(chords)],
+              "same": [],
               "red": red, "minidle": minidle, "lkey": cfgdesc.code(lkey) if lkey else 0, "slack": 2 * red + 10}
     return desc, params
 
 
-def episodes(rng, keys, n_episodes, gaps, settle):
+def episodes(rng, keys, n_episodes, gaps, settle, same=()):
     """Random schedule made of short bursts (2-8 physically consistent events with gaps around the timeout), each
     followed by the release of everything and a pause long enough for kanata to settle."""
     s = []
     for _ in range(n_episodes):
         s += rand_history(rng, keys, rng.randint(2, 8), gaps, release_all=True, tail=settle)
     # at most three inputs between two ticks (a longer burst only lengthens the queue the release waits in)
+    # the physical keys of one chord key are not down at the same time (environment assumption of P_C09's `same`)
+    grp = {}
+    for tw in same:
+        grp[tw["c"]] = grp[tw["k"]] = tw["k"]
+    down, skipped, s2 = set(), set(), []
+    for st in s:
+        if st[0] == "d" and st[1] in grp and any(grp.get(k) == grp[st[1]] for k in down):
+            skipped.add(st[1])
+            continue
+        if st[0] == "u" and st[1] in skipped:
+            skipped.discard(st[1])
+            continue
+        if st[0] == "d":
+            down.add(st[1])
+        elif st[0] == "u":
+            down.discard(st[1])
+        s2.append(st)
+    s = s2
     out, run = [], 0
     for st in s:
         if st[0] == "t":
@@ -92,6 +118,12 @@ def family(tier):
     v2_uni = lambda T: make_v2([(("a", "b"), T, "all", [], "+r")], "ab")
     v2_pair = lambda T: make_v2([(("a", "b"), T, "all", [], None)], "abc")        # c: a key without chords
     v2_sub = lambda T: make_v2([(("a", "b"), T, "all", [], None), (("a", "b", "c"), T, "first", [], None)], "abc")
+    # nested / overlapping chords with DIFFERENT timeouts: the window of a pressed set is the shortest timeout of the
+    # chords that can still be completed from it, not of a chord the latest press has ruled out
+    v2_tmix = lambda T1, T2: make_v2([(("a", "b"), T1, "all", [], None), (("a", "c"), T2, "first", [], None),
+                                      (("a", "b", "c"), T2, "all", [], None)], "abc")
+    # two physical keys (a and e) carry the chord key a
+    v1_twin = lambda T: make_v1(T, "ab", [("a", "b")], twin={"e": "a"})
     v2_layer = lambda T: make_v2([(("a", "b"), T, "all", [1], None)], "ab", lkey="d")
     if tier == "quick":
         return [
@@ -104,6 +136,8 @@ def family(tier):
             ("v2_pair_T2", v2_pair(2), {"qmax": 2, "depth": 22}),
             ("v2_sub_T2", v2_sub(2), {"qmax": 2, "depth": 22}),
             ("v2_layer_T2", v2_layer(2), {"qmax": 2, "depth": 20}),
+            ("v2_tmix_T24", v2_tmix(2, 4), {"qmax": 2, "depth": 18}),
+            ("v1_twin_T2", v1_twin(2), {"qmax": 2, "depth": 18}),
         ]
     return [
         ("v1_pair_T3", v1_pair(3), {"qmax": 3}),
@@ -121,6 +155,10 @@ def family(tier):
         ("v2_pair_T2", v2_pair(2), {"qmax": 2, "depth": 30}),
         ("v2_sub_T2", v2_sub(2), {"qmax": 2, "depth": 30}),
         ("v2_layer_T2", v2_layer(2), {"qmax": 2, "depth": 27}),
+        ("v2_tmix_T24", v2_tmix(2, 4), {"qmax": 2, "depth": 26}),
+        ("v2_tmix_T13", v2_tmix(1, 3), {"qmax": 3, "depth": 20}),
+        ("v1_twin_T2", v1_twin(2), {"qmax": 2}),
+        ("v1_twin_T3", v1_twin(3), {"qmax": 3, "depth": 24}),
         # overlapping chords with different release rules; an undefined superset (a b c)
         ("v2_ovl_T2", make_v2([(("a", "b"), 2, "all", [], None), (("b", "c"), 2, "first", [], None)], "abc"),
          {"qmax": 2, "depth": 22}),
@@ -142,6 +180,8 @@ def mc_instance(name, desc, params, opts):
             "extra_defs": "PendBound == mon.err # \"\" \\/ (Len(mon.pend) <= %d)" % (opts.get("qmax", 3) + 1)}
     if opts.get("depth"):      # quick tier: every schedule of at most `depth` steps (inputs and ticks)
         inst["extra_defs"] = inst["extra_defs"][:-1] + " /\\ Len(hist) <= %d)" % opts["depth"]
+    for tw in params["same"]:  # the physical keys of one chord key are not down at the same time
+        inst["extra_defs"] = inst["extra_defs"][:-1] + " /\\ ~({%d, %d} \\subseteq phys))" % (tw["c"], tw["k"])
     if params["ver"] == 2:
         inst["universe"] = keys + [0]          # TRIGGER_TAPHOLD_COORD (0, 0) is dequeued like a key
         inst["view"] = "<<CvCanonK(K), phys, mon>>"
@@ -215,6 +255,18 @@ def schedule_family(tier):
                                     (("a", "b", "e"), T, "first", [], None)], "abcef", lkey="d"),
               dict(keys=[c("a"), c("b")], gaps=[0, 1], hold=[6], rgaps=[0], other=[c("f")], minsize=2,
                    pre=[["d", c("d")], ["t", 25]], post=[["t", 10], ["u", c("d")]])))
+    # nested chords with different timeouts (short sub-chord, two longer supersets): presses inside the short window,
+    # after it but inside the long one, and after the long one
+    T1, T2 = 3, 8
+    F.append(("s_v2_tmix", make_v2([(("a", "b"), T1, "all", [], None), (("a", "b", "c"), T2, "first", [], None),
+                                     (("a", "b", "c", "d"), T2, "all", [], None)], "abcd"),
+              dict(keys=[c("a"), c("b"), c("c"), c("d")], gaps=[0, T1 + 1] if tier == "quick" else [0, T1 - 1, T1 + 1, T2 + 1],
+                   hold=[T2 + 2], rgaps=[0], minsize=3, allrel=False)))
+    # chords v1, two physical keys (a, e) carry the chord key a: the schedules over each of the two physical keys
+    twin = make_v1(T, "abc", [("a", "b"), ("a", "b", "c")], plain="d", twin={"e": "a"})
+    for nm, first in (("s_v1_twin_e", "e"), ("s_v1_twin_a", "a")):
+        F.append((nm, twin, dict(keys=[c(first), c("b"), c("c")], gaps=[0, T - 1, T + 1], hold=[6], rgaps=[0, 2],
+                                 other=[c("d")] if tier != "quick" else [], allrel=tier != "quick")))
     if tier != "quick":
         g4 = [0, T + 1]
         F += [
@@ -276,7 +328,7 @@ def run(tier, seed):
         T = max([params["T"]] + [c["T"] for c in params["chords"]])
         gaps = [0, 0, 1, 1, max(T - 1, 0), T, T + 1, T + params["minidle"] + 2, 3 * T + 12]
         settle = T + params["minidle"] + params["slack"] + 3 * params["red"] + 12
-        scripts = [episodes(rng, keys, rng.randint(2, 6), gaps, settle) for _ in range(n)]
+        scripts = [episodes(rng, keys, rng.randint(2, 6), gaps, settle, params["same"]) for _ in range(n)]
         jobs_random.append({"cfg": kbd, "params": params, "tag": "r:" + name, "scripts": scripts})
     sched_jobs = []
     nsched = 0
